@@ -52,7 +52,7 @@ func (G *gen) census() error {
 		gate = "1"
 	}
 	G.c.Line(fmt.Sprintf("cap %s %s", cs.Cap, gate), "ok")
-	for _, cr := range classify(cs.Rows, exp) {
+	for _, cr := range classify(cs.Rows, exp, cs.Callers) {
 		row := cr.Row
 		fn, cls, want := row.Fn, "unclassified", 0
 		if cr.Exp != nil {
@@ -63,7 +63,10 @@ func (G *gen) census() error {
 		G.c.Line(fmt.Sprintf("site %s %s %s %d %d %s", fn, row.Field, row.Kind, row.Unguarded, want, cls), "ok")
 		G.c.Hit("census:" + cls)
 		if row.MovedFrom != "" {
-			G.c.Hit("census:moved-within-file")
+			G.c.Hit("census:moved-or-extracted")
+		}
+		if row.Unguarded < want {
+			G.c.Hit("census:fewer-unguarded-than-pinned")
 		}
 	}
 	G.c.Line(fmt.Sprintf("census-end %d", len(cs.Rows)), "ok")
